@@ -2,10 +2,16 @@ use crate::ctx::Ctx;
 
 pub mod common;
 pub mod c01;
+pub mod c02;
+pub mod c03;
+pub mod c05;
 
 pub fn run(prop: &str, ctx: &mut Ctx) -> bool {
     match prop {
         "C01" => c01::run(ctx),
+        "C02" => c02::run(ctx),
+        "C03" => c03::run(ctx),
+        "C05" => c05::run(ctx),
         _ => return false,
     }
     true
